@@ -27,7 +27,7 @@ MANIFEST_ENTRY = {
             "the recorded finding); (declarations) the variable declarations of a function block -- one block per variable with its class "
             "and qualifier, elementary or named type, constant or enumerated initial value, edge inputs -- are read back exactly "
             "(C10_declarations_parse_render; a negative initial value is refuted); (libraries) TYPE declarations -- arrays, integer subranges, enumerations, elementary types with a default, late-bound names, each written in a TYPE block of its own -- function blocks and programs are read back as the same flat library and rendering again gives the same tokens (C10_library_parse_render, C10_library_fixed_point; a negative bound is refuted). The renderer model is compared token for token with write_to_string. "
-            "(times of day) the seconds text the renderer writes for TIME_OF_DAY# / DATE_AND_TIME# -- two digits, '.', the microseconds as six digits without trailing zeros, at least two -- is read back by the literal model as exactly that time, for every hour, minute, second and microsecond (C10_time_of_day_round_trip; the digits-level fact by a general lemma about digit lists, no enumeration); (dates) every date the literal model accepts is read back from DATE#yyyy-mm-dd as that date (C10_date_round_trip); (durations) whatever decimal spelling of n < 2^64 stands in TIME#<n>ms, it is read back as exactly n milliseconds (C10_milliseconds_read_back); the models' texts are compared with write_to_string and the model's reading of the renderer's digits with the value the parser gave the original literal. "
+            "(times of day) the seconds text the renderer writes for TIME_OF_DAY# / DATE_AND_TIME# -- two digits, '.', the microseconds as six digits without trailing zeros, at least two -- is read back by the literal model as exactly that time, for every hour, minute, second and microsecond (C10_time_of_day_round_trip; the digits-level fact by a general lemma about digit lists, no enumeration); the STORED time (nanoseconds) is read back exactly when it has no part finer than a microsecond, both directions (C10_stored_time_round_trip_iff: the recorded finding is precisely nanos mod 1000 <> 0); (dates) every date the literal model accepts is read back from DATE#yyyy-mm-dd as that date (C10_date_round_trip); (durations) whatever decimal spelling of n < 2^64 stands in TIME#<n>ms, it is read back as exactly n milliseconds (C10_milliseconds_read_back); the models' texts are compared with write_to_string and the model's reading of the renderer's digits with the value the parser gave the original literal. "
             "For declarations and the remaining statement forms the round trip is decided by search: every generated unit and every fixture is parsed, rendered, re-parsed and compared with Rust's ==; the second "
             "rendering must equal the first. The renderer has several recorded defects (known findings) whose classes are excluded by "
             "predicates on the unit and on the way the round trip fails.",
